@@ -8,6 +8,7 @@ V: Trace_Keys validates recorded Marshal/Unmarshal results for seeded moduli of
    every byte length 1..520 and the key-id derivations of issuers of every type
    (SHA-256 supplied by the harness next to the logged bytes)."""
 import vlib
+from checks import ages_common as ag
 from checks import c04
 
 
@@ -23,7 +24,9 @@ def run(ctx):
     for c in cases:
         k = c["op"] + ("/" + c["kind"] if "kind" in c else "")
         kinds[k] = kinds.get(k, 0) + 1
+    an, acases = ag.run(ctx, ['keyid'])   # Ages.tla: every schedule of phases on one long-lived object, each phase scaled to n operations
     return ctx.finish({
+        **ag.coverage(an, acases),
         "traces_validated_against_impl": n,
         "evaluations": len(cases),
         "distinct_nontrivial": len({vlib.json.dumps(c, sort_keys=True) for c in cases}),
@@ -40,4 +43,6 @@ def run(ctx):
 
 
 def replay(ctx, path):
+    if vlib.json.load(open(path)).get("family") == "ages":
+        return ag.replay(ctx, path)
     return ctx.replay_case(path, "keys", "Trace_Keys")
